@@ -92,6 +92,7 @@ def arith_constraints(paths):
             cons.append(le(t, t[2]))
         if t[0] == "bin" and t[1] in ("Sub", "SatSub"):
             cons.append(table.sub_consistent(t))
+            cons.append(le(t[3], t[3]))      # makes the subtrahend a point of the order type
         if t[0] == "bin" and t[1] == "Rem":
             cons.append(lt(t, t[3]))
         if t[0] == "bin" and t[1] == "Mul" and t[2][0] == "bin" and t[2][1] == "Div" and t[2][3] == t[3]:
